@@ -330,6 +330,39 @@ def file_rows_equal(path, outpath, keep_tags):
     return None
 
 
+def mask_correspondence(chk, g, path, rows, n):
+    """the *generated* `_time_selection_mask` / `_phase_selection_mask` (translator/masks.py), run by the driver on order-preserving keys,
+    against the boolean masks the real methods return on the synthetic file — bounds on event values and one ulp off, one- and two-sided, inverted"""
+    from ixpeobssim.bin.xpselect import PARSER
+    from ixpeobssim.evt import subselect
+    drv, jobs = Driver(), []
+    T, P = rows['time'], rows['phase']
+    for i in range(n):
+        kind = 'time' if i % 2 == 0 else 'phase'
+        vals = T if kind == 'time' else P
+        a, b = sorted(float(x) for x in g.choice(numpy.unique(vals), 2, replace=False))
+        if kind == 'time' and g.uniform() < 0.4:
+            a, b = float(numpy.nextafter(a, a + g.choice([-1., 1.]))), float(numpy.nextafter(b, b + g.choice([-1., 1.])))
+        r = g.uniform()
+        lo, hi = (a, b) if r < 0.5 else (a, None) if r < 0.75 else (None, b)
+        inv = bool(g.uniform() < 0.4)
+        kwargs = PARSER.parse_args([path]).__dict__
+        kwargs.update({('tmin' if kind == 'time' else 'phasemin'): lo, ('tmax' if kind == 'time' else 'phasemax'): hi, ('tinvert' if kind == 'time' else 'phaseinvert'): inv})
+        sel = subselect.xEventSelect(path, **kwargs)
+        impl = [int(x) for x in (sel._time_selection_mask() if kind == 'time' else sel._phase_selection_mask())]
+        sel.event_file.close()
+        o = lambda v: 'N' if v is None else str(f2b(v))
+        drv.ask('gmask %s %s %s %d %d %s' % (kind, o(lo), o(hi), int(inv), len(vals), ' '.join(str(f2b(float(v))) for v in vals)))
+        jobs.append((kind, lo, hi, inv, impl))
+    for (kind, lo, hi, inv, impl), rep in zip(jobs, drv.run()):
+        model = [int(x) for x in rep.split()]
+        chk.case(dict(op='generated-mask', kind=kind, lo=lo, hi=hi, invert=inv, kept=sum(impl)), nontrivial=0 < sum(impl) < len(impl))
+        if model != impl:
+            k = [i for i, (x, y) in enumerate(zip(model, impl)) if x != y]
+            chk.fail('correspondence', 'generated %s mask (bounds %r, %r, invert %s) differs from the implementation on %d rows (first: value %r)' % (
+                kind, lo, hi, inv, len(k), float((rows['time'] if kind == 'time' else rows['phase'])[k[0]])), dict(op='gmask', kind=kind, lo=lo, hi=hi, invert=inv))
+
+
 def run_cases(chk, n, tagname, budget=1):
     g = rng(tagname)
     for centre in (0, 1):
@@ -342,6 +375,7 @@ def _run_cases(chk, g, n):
     with scratch() as d:
         path, reg = build_file(g, d)
         rows = read_rows(path, reg)
+        mask_correspondence(chk, g, path, rows, 20 if chk.tier == 'quick' else 200)
         drv = Driver()
         jobs = []
         for kw in boundary_cfgs(g, rows) + [gen_cfg(g, rows, malformed=(i % 7 == 6)) for i in range(n)]:
@@ -415,7 +449,7 @@ def main(chk):
                 'neighbours, 1 in 7 configurations is invalid (validation enum compared); kept tags compared exactly with the Lean model, all columns of kept rows '
                 'compared with the input, inverse partitions and chained selections run on the implementation. non-trivial = ≥ 2 criteria, some rows kept and some dropped')
     chk.assumptions = TRUSTED
-    chk.lean(['IxpeVerif.Props.C09'], ['channel_to_energy'])
+    chk.lean(['IxpeVerif.Props.C09'], ['channel_to_energy', 'time_selection_mask', 'phase_selection_mask'])
     import corr_gen
     corr_gen.run(chk, ['channel_to_energy', 'energy_to_channel'], n=100, tag='C09')
     n = 80 if chk.tier == 'quick' else 1500
